@@ -7,8 +7,6 @@ set_option linter.unusedVariables false
 set_option linter.unusedSimpArgs false
 namespace Lifecycle
 
-theorem upd_apply {α : Type} (f : Nat → α) (k i : Nat) (v : α) : upd f k v i = if i = k then v else f i := rfl
-
 /-- the lock holder saw the run active at acquisition, or has made it active -/
 def Hold.sawActive : Hold → Bool
   | .sClear _ | .sRClear _ | .sDeliver _ => true
